@@ -369,7 +369,7 @@ class DropNaMinvalid(Contract):
 
 
 class SortAxisKey(Contract):
-    """BOUNDED STAND-IN ONLY (never counted as proved).  sort_axis(axis, key=...) for a key FUNCTION and for a dict used as key:
+    """BOUNDED STAND-IN ONLY (never counted as proved).  sort_axis(axis, key=...) for a key FUNCTION and for a dict used as key (numbers or TUPLES as key values):
     the labels come out in ascending order of key(label) (ties in their original order), every slice with its label, other
     axes and metadata kept, operand untouched.  The sorting is Python-level (sorted(range(n), key=...)), outside the symbolic
     engine's reach; evaluated on the real code over arrays of rank 1-2 with distinct labels of length 0-3.  [C17]"""
@@ -379,7 +379,7 @@ class SortAxisKey(Contract):
 
     def cases(self, tier):
         for rank in (1, 2):
-            for key in ("negate", "dict", "abs-distance"):
+            for key in ("negate", "dict", "abs-distance", "tuple", "dict-of-tuples"):
                 yield {"name": "r%d-key_%s" % (rank, key), "rank": rank, "key": key}
 
     def setup(self, S, case):
@@ -393,6 +393,13 @@ class SortAxisKey(Contract):
             return (lambda v: -v), (lambda v: -v)
         if k == "abs-distance":
             return (lambda v: abs(v - 1.0)), (lambda v: abs(v - 1.0))
+        if k == "tuple":
+            # a multi-criteria key: any comparable Python object is a key, not only a number
+            f = lambda v: (int(abs(v)) % 2, -v)
+            return f, f
+        if k == "dict-of-tuples":
+            table = {v: ((7 * i + 3) % 2, -i) for i, v in enumerate(sorted(L))}
+            return table, table.__getitem__
         table = {v: (7 * i + 3) % 5 for i, v in enumerate(sorted(L))}
         return table, table.__getitem__
 
